@@ -509,9 +509,12 @@ def wrapper_discipline(C, R, cfg, state_adts, rule):
 
 
 # ------------------------------------------------------------ initial state
-def constructor_state(R, E, F, state_adt, expect, rule):
+def constructor_state(R, E, F, state_adt, expect, rule, also_valid=None):
     """the state struct's constructor establishes the initial state the inductive arguments start from:
-    expect = {field: ('const', c) | ('param', name) | 'none' | 'empty-queue'}"""
+    expect = {field: ('const', c) | ('param', name) | 'none' | 'empty-queue'}.  also_valid(fields) -> reason | None:
+    a construction site other than `new` (an additional constructor such as `with_value`) may start in another state
+    that satisfies the property's invariant - one that new() followed by the primitive's own operations could have
+    reached"""
     from engine import NONE as _NONE
     # every place where the struct is built: its new(), or - when that was folded away - the literal in its owner
     site_fns = sorted(set(f2['path'] for f2, s2, cl in scan_aggregates(F, state_adt) if not cl))
@@ -535,6 +538,11 @@ def constructor_state(R, E, F, state_adt, expect, rule):
         raise CheckerError('anchor=constructor of %s: no constructed value found on any path' % state_adt)
     for fn, path, agg_ in found:
         d = dict(agg_[3])
+        if also_valid is not None and fn.get('name') != 'new':
+            why = also_valid(d)
+            if why:
+                R.ok(rule, '%s|additional constructor: %s' % (fn['path'], why))
+                continue
         for field, want in expect.items():
             got = d.get(field)
             if isinstance(want, tuple) and want[0] == 'param' and got is not None and got[0] == 'param':
@@ -752,6 +760,73 @@ def _find_adt_aggs(v, adt, out, depth=0):
             _find_adt_aggs(x, adt, out, depth + 1)
 
 
+def counted_handle_sites(R, E, F, CG, rule):
+    """A handle of a shared channel whose destructor decrements a handle counter (and closes / discards on reaching
+    zero) must have been counted when it was made: on every returning path of every function that builds such a
+    handle, the number of handles built does not exceed the increments of that side's counter on the path plus - in
+    the channel constructor, which builds the shared state with the counter at 1 - one.  An uncounted handle makes an
+    early destructor run the last-handle path while handles of that side are still alive.  returns #sites"""
+    ARC_ = 'std::sync::Arc'
+    n = 0
+    for a in F.raw['adts']:
+        if '::shared::' not in a['path'] or a['kind'] != 'struct':
+            continue
+        arc = [f for f in a['variants'][0]['fields'] if f['ty'].get('k') == 'adt' and f['ty']['path'].endswith('Arc')
+               and f['ty']['args'] and f['ty']['args'][0].get('k') == 'adt' and f['ty']['args'][0].get('local')]
+        if not arc:
+            continue
+        shared = arc[0]['ty']['args'][0]['path']
+        drops = [fn for fn in F.raw['fns'] if fn.get('impl_adt') == a['path'] and (fn.get('impl_trait') or '').endswith('ops::Drop')]
+        if not drops:
+            continue
+        side = None
+        for path in E.run(drops[0]['path']):
+            for e in path.events:
+                if e['k'] == 'call' and e['name'] == 'fetch_sub' and e['args'] and e['args'][0][0] == 'ref':
+                    cf = fields_of(e['args'][0][1])
+                    side = cf[-1] if cf else side
+        if side is None:
+            continue    # an uncounted handle type (its destructor closes unconditionally: C11.R5 judges that)
+        hname = a['path'].split('::')[-1]
+        site_fns = sorted(set(CG.root_fn(fn['path']) for fn, s_, cl in scan_aggregates(F, a['path']) if not cl))
+        for sp_ in site_fns:
+            fn = F.fn(sp_)
+            for path in E.run(sp_):
+                if path.exit != 'return':
+                    continue
+                built = []
+                _find_adt_aggs(path.ret, a['path'], built)
+                for e in path.events:
+                    if e['k'] == 'call' and e.get('mode') == 'opaque':
+                        for x in e.get('args', ()):
+                            _find_adt_aggs(x, a['path'], built)
+                if not built:
+                    continue
+                n += 1
+                adds = sum(1 for e in path.events if e['k'] == 'call' and e['name'] == 'fetch_add' and e['args']
+                           and e['args'][0][0] == 'ref' and fields_of(e['args'][0][1])[-1:] == (side,)
+                           and e['args'][1] == ('const', 1))
+                fresh = []
+                _find_adt_aggs(path.ret, shared, fresh)
+                for e in path.events:
+                    if e['k'] == 'call':
+                        for x in e.get('args', ()):
+                            _find_adt_aggs(x, shared, fresh)
+                init = 1 if fresh else 0
+                if len(built) <= adds + init:
+                    R.ok(rule, '%s|%s built counted (%s)|%s' % (sp_, hname, 'new channel' if init else 'counter incremented',
+                                                                path_cond(E, path)))
+                else:
+                    R.fail(rule, [sp_, 'uncounted-handle', hname],
+                           '%s builds %d %s on a path that increments `%s` %d time(s)%s: the handle is not counted, so '
+                           'dropping it runs the last-handle path (close, discard of buffered values) while other '
+                           'handles of that side are alive [%s]' % (sp_, len(built), hname, side, adds,
+                                                                    ' and creates the channel' if init else '',
+                                                                    path_cond(E, path)),
+                           '%s:%s' % (fn['file'], fn['line']), {'trace': trace_summary(path)})
+    return n
+
+
 # ---------------------------------------------------------------------- the value slot of a channel state
 def _has_param(v, depth=0):
     if not isinstance(v, tuple) or depth > 8:
@@ -801,6 +876,10 @@ def slot_discipline(R, E, F, CG, state, rule, writers=('send',), may_take=True):
                         R.ok(rule, '%s|None written over an empty slot' % m['path'])
                     elif m.get('name') in writers and _has_param(e['val']):
                         R.ok(rule, '%s|slot assigned by %s with the caller\'s value' % (m['path'], m.get('name')))
+                    elif (F.fn(e.get('fn') or '') or {}).get('name') in writers and _has_param(e['val']) and \
+                            (F.fn(e['fn']).get('impl_adt') == state or e['fn'] in F.alias_fns):
+                        # another operation that goes through the state's own send (under the guards that send has)
+                        R.ok(rule, '%s|slot assigned through %s with the caller\'s value' % (m['path'], e['fn']))
                     elif e['val'] == NONE and not may_take:
                         R.fail(rule, [m['path'], 'slot-cleared'], '%s clears the value slot' % m['path'], where(F, e),
                                {'trace': trace_summary(path)})
